@@ -3,15 +3,18 @@ package scen
 import (
 	"bytes"
 	"encoding/base64"
+	"errors"
 	"fmt"
 	"reflect"
 	"strconv"
+	"strings"
 
 	json "github.com/go-json-experiment/json"
 	"github.com/go-json-experiment/json/jsontext"
 	jsonv1 "github.com/go-json-experiment/json/v1"
 
 	"verifsim/core"
+	"verifsim/gen"
 	"verifsim/refjson"
 )
 
@@ -576,7 +579,153 @@ func (sc *SemErr) plan(t *core.Tape) *SemErrPlan {
 	return p
 }
 
+// semUser is unmarshalled by a caller-supplied function that reads part of
+// the array and then returns an error of its own, without any position.
+type semUser []int
+
+type semUserT struct {
+	F0 string  `json:"f0"`
+	U  semUser `json:"u"`
+	F2 int     `json:"f2"`
+}
+
+// runUserError: the library has to synthesise the position of an error
+// returned by user code from where the decoder stands. Whatever rule it uses,
+// the offset must be the start of a token next to that place (the one read
+// last or the one coming up), never a comma or whitespace, and the pointer must
+// name the array or the element read last / coming up.
+func (sc *SemErr) runUserError(t *core.Tape, env *Env) (any, []core.Violation) {
+	s := t.S("user")
+	st := env.Stats
+	var viols []core.Violation
+	ws := func(b []byte) []byte {
+		n := []int{0, 0, 1, 2, 7, 40, 64, 130, 300}[s.Weighted(6, 6, 4, 3, 2, 1, 1, 1, 1)]
+		for i := 0; i < n; i++ {
+			b = append(b, " \n\t"[i%3])
+		}
+		return b
+	}
+	elems := []string{`1`, `"x"`, `true`, `null`, `-2.5e3`, `"a longer string with \u00e9 escapes"`, `[1,2]`, `{"a":[]}`, `123456789012`}
+	n := 1 + s.Draw(6)
+	b := []byte(`{"f0":"`)
+	b = append(b, strings.Repeat("p", gen.Size(s, 5000))...)
+	b = append(b, '"')
+	b = ws(b)
+	b = append(b, ',')
+	b = ws(b)
+	b = append(b, `"u"`...)
+	b = ws(b)
+	b = append(b, ':')
+	b = ws(b)
+	var starts []int
+	starts = append(starts, len(b))
+	b = append(b, '[')
+	for i := 0; i < n; i++ {
+		if i > 0 {
+			b = ws(b)
+			b = append(b, ',')
+		}
+		b = ws(b)
+		starts = append(starts, len(b))
+		b = append(b, elems[s.Draw(len(elems))]...)
+	}
+	b = ws(b)
+	starts = append(starts, len(b))
+	b = append(b, `],"f2":7}`...)
+	reads := s.Draw(n + 2) // tokens/values read by the function: '[' then elements
+	peek := s.Bool()
+	useValue := s.Draw(1 << 8)
+	text := string(b)
+	var rp core.ReadPlan
+	rs := t.S("reader")
+	switch rs.Weighted(2, 2, 3, 3) {
+	case 1:
+		rp.MaxChunk = 1
+	case 2:
+		rp.Cuts = []int{rs.Draw(len(b) + 1), rs.Draw(len(b) + 1)}
+	case 3:
+		rp.MaxChunk = 1 + rs.Draw(50)
+	}
+	plan := map[string]any{"mode": "user-error-position", "text": clipStr(text, 600), "elements": n, "reads": reads, "peek_before_returning": peek, "read": rp}
+	userErr := errors.New("user code rejects this")
+	fn := json.UnmarshalFromFunc(func(dec *jsontext.Decoder, p *semUser) error {
+		for i := 0; i < reads; i++ {
+			var err error
+			if i > 0 && useValue>>(i%8)&1 == 1 {
+				_, err = dec.ReadValue()
+			} else if i > 0 && dec.PeekKind() != '[' && dec.PeekKind() != '{' {
+				_, err = dec.ReadToken()
+			} else if i > 0 {
+				_, err = dec.ReadValue()
+			} else {
+				_, err = dec.ReadToken()
+			}
+			if err != nil {
+				return err
+			}
+		}
+		if peek {
+			dec.PeekKind()
+		}
+		return userErr
+	})
+	okOff := map[int64]bool{int64(starts[reads]): true}
+	okPtr := map[string]bool{"/u": true}
+	if reads > 0 {
+		okOff[int64(starts[reads-1])] = true
+	}
+	if reads >= 2 {
+		okPtr[fmt.Sprint("/u/", reads-2)] = true
+	}
+	if reads >= 1 && reads-1 < n {
+		okPtr[fmt.Sprint("/u/", reads-1)] = true
+	}
+	check := func(route string, err error) {
+		st.Steps++
+		ec := classify(err)
+		if ec.Kind != "semantic" || !errors.Is(err, userErr) {
+			viols = append(viols, core.Violationf("C16", "C16/semantic-error/type", route+"/user-error", "%s: a user function returned its own error after reading %d tokens of the array at /u; the call returned %v; text=%s", route, reads, ec, clip(b, 200)))
+			return
+		}
+		if !okPtr[ec.Ptr] {
+			viols = append(viols, core.Violationf("C16", "C16/semantic-error/pointer", route+"/user-error", "%s: JSONPointer=%q for an error returned by user code after reading %d tokens of the %d-element array at /u (peek=%v); text=%s", route, ec.Ptr, reads, n, peek, clip(b, 200)))
+			return
+		}
+		if !okOff[ec.Off] {
+			viols = append(viols, core.Violationf("C16", "C16/semantic-error/offset", route+"/user-error", "%s: ByteOffset=%d for an error returned by user code after reading %d tokens of the array at /u (peek=%v): that is not the start of the token read last (%d) nor of the one coming up (%d) but %q; text=%s", route, ec.Off, reads, peek, starts[max(reads-1, 0)], starts[reads], safeByte(b, ec.Off), clip(b, 200)))
+			return
+		}
+		st.Probe("c16/semerr/user-error-checked/" + route)
+	}
+	var v1, v2, v3 semUserT
+	check("Unmarshal", json.Unmarshal(b, &v1, json.WithUnmarshalers(fn)))
+	sim := core.NewSimReader(b, rp)
+	check("UnmarshalRead", json.UnmarshalRead(sim, &v2, json.WithUnmarshalers(fn)))
+	dec := jsontext.NewDecoder(core.NewSimReader(b, rp))
+	check("UnmarshalDecode", json.UnmarshalDecode(dec, &v3, json.WithUnmarshalers(fn)))
+	if sim.NShort > 0 {
+		st.Nontrivial = true
+	}
+	st.Fault("read/short", sim.NShort)
+	pk := 0
+	if peek {
+		pk = 1
+	}
+	st.SigAdd(0x5f, uint64(n), uint64(reads), uint64(pk), hashBytes(b))
+	return plan, viols
+}
+
+func safeByte(b []byte, off int64) string {
+	if off < 0 || off >= int64(len(b)) {
+		return "out of range"
+	}
+	return string(b[off : off+1])
+}
+
 func (sc *SemErr) Run(t *core.Tape, env *Env) (any, []core.Violation) {
+	if t.S("mode").Chance(1, 5) {
+		return sc.runUserError(t, env)
+	}
 	p := sc.plan(t)
 	st := env.Stats
 	var viols []core.Violation
